@@ -60,6 +60,12 @@ type senderModel struct {
 	fastBase   uint64
 	fastSince  bool   // a fast/early retransmit happened since that loss
 	prevCwnd   uint32 // congestion window after this endpoint's previous step
+	// whether the current step retransmitted a segment by timeout, judged
+	// without the library's own loss counter: when a retransmitted segment goes
+	// on the wire its fast-ack counter has just been set by the branch that
+	// chose it - to the "already fast-retransmitted" marker by the fast and
+	// early branches, to 0 by the timeout branch.
+	rtoPending bool
 }
 
 func newSenderModel() *senderModel { return &senderModel{rmtWnd: 32, seen: map[uint32]bool{}} }
@@ -111,6 +117,14 @@ func attachC04(s *sim.CoreSim, obs *c04Obs) {
 		for _, sg := range e.Segs {
 			if int(sg.Wnd) > free {
 				return fmt.Errorf("segment cmd=%d sn=%d advertises window %d, delivery queue has room for %d (rcv_wnd=%d, queued=%d)", sg.Cmd, sg.Sn, sg.Wnd, free, st.RcvWnd, st.RcvQueue)
+			}
+			if sg.Cmd == wire.CmdPush && m.seen[sg.Sn] && !m.rtoPending {
+				full := k.VerifState(true)
+				for j, sn := range full.SndBufSn {
+					if sn == sg.Sn && full.SndBufAcked[j] == 0 && full.SndBufFastack[j] == 0 {
+						m.rtoPending = true
+					}
+				}
 			}
 			if sg.Cmd != wire.CmdPush || m.seen[sg.Sn] {
 				continue
@@ -170,7 +184,7 @@ func attachC04(s *sim.CoreSim, obs *c04Obs) {
 			if fast > m.fastBase && m.afterLoss {
 				m.fastSince = true
 			}
-			if lost > m.lostBase && st.Nocwnd == 0 && st.SndBuf > 0 {
+			if (lost > m.lostBase || m.rtoPending) && st.Nocwnd == 0 && st.SndBuf > 0 {
 				m.afterLoss = true
 				m.fastSince = false
 				m.lossOldest = st.SndUna
@@ -180,6 +194,7 @@ func attachC04(s *sim.CoreSim, obs *c04Obs) {
 		for i := 0; i < 2; i++ {
 			obs.sm[i].lostBase, obs.sm[i].fastBase = lost, fast
 			obs.sm[i].prevCwnd = s.K[i].VerifState(false).Cwnd
+			obs.sm[i].rtoPending = false
 		}
 		return nil
 	}
